@@ -3,6 +3,10 @@
    structural positions, any escape spelling of a character, any number spelling).
    Written from the RFC, independently of the parser.
 
+   One restriction (RFC 8259 section 9 allows an implementation to limit the length of
+   strings): these are the RFC 8259 texts whose strings and keys decode to at most 65535
+   bytes — the library's StringNode::maxLength ([string_fits], a conjunct of [jstring]).
+
    text : bytes (UTF-8 encoded, as RFC 8259 section 8.1 requires)
    value: Model.Value.jv, where
      - a string denotes the UTF-8 bytes of its decoded code points,
@@ -45,8 +49,12 @@ Inductive jchars : bytes -> bytes -> Prop :=
 | chs_nil : jchars [] []
 | chs_cons : forall t1 b1 t2 b2, jchar t1 b1 -> jchars t2 b2 -> jchars (t1 ++ t2) (b1 ++ b2).
 
+(* the length limit of a stored string: StringNode::maxLength with the default 2-byte length *)
+Definition max_string_bytes : N := 65535.
+Definition string_fits (s : bytes) : Prop := N.of_nat (length s) <= max_string_bytes.
+
 Definition jstring (t : bytes) (s : bytes) : Prop :=
-  exists body, t = [34] ++ body ++ [34] /\ jchars body s.
+  exists body, t = [34] ++ body ++ [34] /\ jchars body s /\ string_fits s.
 
 (* ---- numbers ------------------------------------------------------------------------- *)
 Definition is_digit (c : N) : bool := (48 <=? c) && (c <=? 57).
